@@ -416,6 +416,10 @@ def run(ctx):
             else:
                 r5.ok("covers", "the mobility test's classes cover every consonant, independent vowel and vowel sign")
     r5.floor(3, "two classes used by the mobility test + coverage")
+    if len(scan) == 1:
+        mobility_rule(chk, prog, rb, buf, scan[0][0], reph_fn)
+    else:
+        chk.rule("C13.R7", "the mobility test as a decision table over the last three characters").undecidable("scan", "the scan loop was not identified")
     r6 = chk.rule("C13.R6", "the old-style reph option is a plain stored value", "with old-style reph on / off — 'the option' is the value the front end set")
     common.plain_options(r6, prog, ["get_fixed_old_reph"])
     r6.floor(1, "the option")
@@ -716,3 +720,253 @@ def suffix_bytes_idiom(prog, ib, buf):
     if other:
         return False, "fold closure does more than acc + len_utf8", None
     return True, "", take_local
+
+
+# ---------------------------------------------------------------------------------------------------------------------------
+# C13.R7 — the mobility test as a decision table over the last three characters
+
+_CLS = ("C", "VI", "VS", "H", "O", "N")     # consonant, independent vowel, vowel sign, chandrabindu, anything else, no character
+
+
+def mobility_paths(prog, rb, buf, head, cls_keys, limit=4000):
+    """Every path of the reph routine from its entry to the scan loop's head (the reph is moved) or to a return that avoids the loop (it is
+    appended), with what the path tests about the k-th character from the end of the text.  Successive `next()` reads of one reversed
+    iterator over the text are numbered along the path.  Returns [(atoms, moved?)]; raises _Undecided(where, why)."""
+    from engine.analyses import known_switch_value, bool_switch_polarity
+    from engine.mir import mk_call
+    out = []
+
+    def pos_of(e):
+        """k when e is the k-th character from the end as an Option<char>."""
+        e = strip_refs(e)
+        if e.k == "index" and strip_refs(e.a[0]).k == "agg" and strip_refs(e.a[0]).a[0] == "array" and is_const(strip_refs(e.a[1]), "int"):
+            e = strip_refs(strip_refs(e.a[0]).a[1][const_val(strip_refs(e.a[1]))])
+        if e.k == "call" and e.a[0] == "@from_end":
+            return const_val(e.a[1][0])
+        return None
+
+    def char_at(e):
+        """k when e is the k-th character from the end as a char (NUL when there is none: unwrap_or_default; or the payload of Some)."""
+        e = strip_refs(peel_conv(e))
+        if e.k == "call" and e.a[0].endswith(("unwrap_or_default", "unwrap_or")) and e.a[1]:
+            if e.a[0].endswith("unwrap_or") and not (len(e.a[1]) == 2 and is_const(strip_refs(e.a[1][1]), "char") and const_val(strip_refs(e.a[1][1])) == "\x00"):
+                return None
+            return pos_of(e.a[1][0])
+        if e.k == "field" and str(e.a[1]) == "0" and strip_refs(e.a[0]).k == "downcast":
+            return pos_of(strip_refs(e.a[0]).a[0])
+        return None
+
+    def cursor(blk, t, name, args, st, peek_only=False):
+        if not args or t["args"][0]["k"] == "const" or not (name.endswith("Iterator>::next") and len(args) == 1 or peek_only):
+            return None
+        it = strip_refs(args[0])
+        if it.k == "call" and it.a[0].endswith("Iterator::peekable") and len(it.a[1]) == 1:
+            it = strip_refs(it.a[1][0])         # a peekable reader reads the same characters in the same order
+        skipped = 0
+        if it.k == "call" and it.a[0].endswith("Iterator::skip") and len(it.a[1]) == 2 and is_const(strip_refs(it.a[1][1]), "int"):
+            skipped = const_val(strip_refs(it.a[1][1]))
+            it = strip_refs(it.a[1][0])
+        if not (it.k == "call" and it.a[0].endswith(("Iterator::rev", "Iterator>::rev")) and len(it.a[1]) == 1):
+            return None
+        chars = strip_refs(it.a[1][0])
+        if not (chars.k == "call" and chars.a[0].endswith("::chars") and any(self_path(x) == (buf,) for x in chars.walk())):
+            return None
+        tmp = t["args"][0]["place"]
+        owner = [s["rv"]["place"] for s in blk["stmts"] if s["k"] == "assign" and s["place"]["l"] == tmp["l"] and not s["place"]["p"] and s["rv"]["k"] == "ref"]
+        if tmp["p"] or len(owner) != 1 or owner[0]["p"]:
+            return None
+        seen = dict(st)
+        k = seen.get(owner[0]["l"], 0)
+        if peek_only:
+            return (owner[0]["l"], skipped + k + 1)
+        seen[owner[0]["l"]] = k + 1
+        st.clear()
+        st.update(seen)
+        return E("call", "@from_end", (E("const", ("int", skipped + k + 1)),), t=t)
+
+    def rec(bb, env, st, atoms, onpath):
+        if len(out) > limit:
+            raise _Undecided(bb, "too many paths in the mobility test")
+        if bb == head:
+            out.append((atoms, True))
+            return
+        if bb in onpath:
+            raise _Undecided(bb, "a loop before the scan")
+        env, st = dict(env), dict(st)
+        blk = rb.blocks[bb]
+        for s in blk["stmts"]:
+            if s["k"] == "assign":
+                if not s["place"]["p"]:
+                    env[s["place"]["l"]] = rb.expr_rvalue(s["rv"], 0, s, env)
+                elif s["place"]["p"][0] != "*":
+                    env[s["place"]["l"]] = E("local", s["place"]["l"])
+        t = blk["term"]
+        if t["k"] == "return":
+            out.append((atoms, False))
+            return
+        if t["k"] == "call":
+            name = callee_name(t)
+            args = tuple(rb.expr_operand(a, 0, env) for a in t["args"])
+            if name.endswith("::next_if_eq") and "Peekable" in name and len(args) == 2 and not t["dest"]["p"] and t.get("target") is not None:
+                # `it.next_if_eq(&c)`: the next character is consumed iff it is c — the path forks on that test
+                pk = cursor(blk, t, name, args, st, peek_only=True)
+                cv = strip_refs(args[1])
+                if pk is not None and is_const(cv, "char"):
+                    owner_l, k_ = pk
+                    st_yes = dict(st)
+                    st_yes[owner_l] = st_yes.get(owner_l, 0) + 1
+                    env_yes, env_no = dict(env), dict(env)
+                    env_yes[t["dest"]["l"]] = E("call", "@from_end", (E("const", ("int", k_)),), t=t)
+                    env_no[t["dest"]["l"]] = E("agg", "adt:std::option::Option::None", (), t={"k": "aggregate", "agg": "adt", "adt": "std::option::Option",
+                                                                                                "variant": "None", "vidx": 0, "fields": [], "ops": []})
+                    rec(t["target"], env_yes, st_yes, atoms + [("eq", k_, const_val(cv), True)], onpath | {bb})
+                    rec(t["target"], env_no, st, atoms + [("eq", k_, const_val(cv), False)], onpath | {bb})
+                    return
+            if not t["dest"]["p"]:
+                env[t["dest"]["l"]] = cursor(blk, t, name, args, st) or mk_call(name, args, bb, t)
+            if t.get("target") is not None:
+                rec(t["target"], env, st, atoms, onpath | {bb})
+            return
+        if t["k"] in ("goto", "drop", "assert"):
+            if t.get("target") is not None:
+                rec(t["target"], env, st, atoms, onpath | {bb})
+            return
+        if t["k"] != "switch":
+            return
+        d = strip_refs(rb.expr_operand(t["discr"], 0, env))
+        neg = False
+        while d.k == "un" and d.a[0] == "Not":
+            d = strip_refs(d.a[1])
+            neg = not neg
+        kv = known_switch_value(d if not neg else E("un", "Not", d))
+        allv = tuple(v for v, _ in t["targets"])
+        pols = bool_switch_polarity(rb, bb) if t["discr_ty"] == "bool" else {}
+        for (node, vals, tgt) in rb.switch_edges(bb):
+            if rb.blocks[tgt]["term"]["k"] == "unreachable":
+                continue
+            if kv is not None:
+                if (kv in vals) if vals != "otherwise" else (kv not in allv):
+                    rec(tgt, env, st, atoms, onpath | {bb})
+                continue
+            atom = None
+            if t["discr_ty"] == "bool":
+                pol = pols.get(node)
+                if pol is None:
+                    raise _Undecided(bb, "a bool switch with an unusual shape")
+                if neg:
+                    pol = not pol
+                if d.k == "call" and d.a[0] in cls_keys and len(d.a[1]) == 1 and char_at(d.a[1][0]) is not None:
+                    atom = ("cls", char_at(d.a[1][0]), cls_keys[d.a[0]], pol)
+                elif d.k == "bin" and d.a[0] in ("Eq", "Ne"):
+                    l_, r_ = strip_refs(d.a[1]), strip_refs(d.a[2])
+                    for a_, b_ in ((l_, r_), (r_, l_)):
+                        if char_at(a_) is not None and is_const(b_, "char"):
+                            atom = ("eq", char_at(a_), const_val(b_), pol == (d.a[0] == "Eq"))
+                elif d.k == "call" and d.a[0].endswith(("Option::<T>::is_some", "Option::<T>::is_none")) and pos_of(d.a[1][0]) is not None:
+                    atom = ("some", pos_of(d.a[1][0]), None, pol == d.a[0].endswith("is_some"))
+            elif d.k == "discr" and pos_of(d.a[0]) is not None:
+                some = (1 in vals) if vals != "otherwise" else (1 not in allv)
+                atom = ("some", pos_of(d.a[0]), None, some)
+            elif t["discr_ty"] == "char" and char_at(d) is not None:
+                if vals == "otherwise":
+                    atom = ("in", char_at(d), tuple(chr(v) for v in allv), False)
+                else:
+                    atom = ("in", char_at(d), tuple(chr(v) for v in vals), True)
+            if atom is None:
+                raise _Undecided(bb, "the mobility test branches on %s, which is not a test of one of the last characters of the text" % (repr(d)[:160],))
+            rec(tgt, env, st, atoms + [atom], onpath | {bb})
+
+    rec(0, {}, {}, [], frozenset())
+    return out
+
+
+class _Undecided(Exception):
+    def __init__(self, bb, why):
+        Exception.__init__(self, why)
+        self.bb, self.why = bb, why
+
+
+def _atom_holds(atom, tail, sets):
+    """tail: classes of the last three characters (index 0 = last).  None when the atom cannot be decided on classes alone."""
+    kind, k, x, want = atom
+    c = tail[k - 1] if 1 <= k <= len(tail) else "N"
+    if kind == "some":
+        return (c != "N") == want
+    if kind == "cls":
+        members = {"is_pure_consonant": {"C"}, "is_vowel": {"VI", "VS"}, "is_kar": {"VS"}}.get(x)
+        if members is None:
+            return None
+        return (c in members) == want
+    chars = (x,) if kind == "eq" else x
+    hit = False
+    for ch in chars:
+        if ch == "ঁ":
+            hit = hit or c == "H"
+        elif ch == "\x00":
+            hit = hit or c == "N"
+        elif ch in sets["C"] or ch in sets["VI"] or ch in sets["VS"]:
+            return None          # a single letter singled out: the table over classes cannot tell
+        else:
+            if c == "O":
+                return None      # one particular other character: classes cannot tell
+    return hit == want
+
+
+def mobility_rule(chk, prog, rb, buf, head, reph_fn):
+    from . import classes
+    r7 = chk.rule("C13.R7", "the mobility test as a decision table over the last three characters",
+                  "immediately before the final conjunct when p ends in that conjunct optionally followed by one vowel (sign) and an optional chandrabindu, "
+                  "and the end of p otherwise")
+    fns = classes.class_fns(prog)
+    cls_keys = {k: n for n, k in fns.items()}
+    try:
+        paths = mobility_paths(prog, rb, buf, head, cls_keys)
+    except _Undecided as e:
+        r7.undecidable("paths", e.why, site_of(rb, e.bb))
+        r7.floor(1, "the table")
+        return
+    sets = {"C": classes.CONSONANTS, "VI": classes.INDEP11, "VS": classes.SIGNS10}
+    import itertools
+    bad, n_rows, undec = None, 0, None
+    for tail in itertools.product(_CLS, repeat=3):
+        if any(tail[i] == "N" and tail[i + 1] != "N" for i in range(2)):
+            continue
+        # orthographically well-formed endings only: a chandrabindu sits on a consonant or a vowel (sign), a sign on a consonant, one chandrabindu
+        i = 0
+        ok = True
+        if tail[0] == "H":
+            i = 1
+            ok = tail[1] in ("C", "VI", "VS")
+        if ok and tail[i] == "VS":
+            ok = i + 1 < 3 and tail[i + 1] == "C"
+        if not ok or "H" in tail[i:]:
+            continue
+        want = tail[i] == "C" or (tail[i] in ("VI", "VS") and i + 1 < 3 and tail[i + 1] == "C")
+        got = set()
+        for atoms, moved in paths:
+            verdicts = [_atom_holds(a, tail, sets) for a in atoms]
+            if any(v is False for v in verdicts):
+                continue
+            if any(v is None for v in verdicts):
+                undec = (tail, [a for a, v in zip(atoms, verdicts) if v is None][0])
+                continue
+            got.add(moved)
+        if len(got) != 1:
+            if undec is None:
+                undec = (tail, "no single outcome: %s" % sorted(got))
+            continue
+        n_rows += 1
+        if got != {want} and bad is None:
+            bad = (tail, want)
+    names = {"C": "consonant", "VI": "independent vowel", "VS": "vowel sign", "H": "chandrabindu", "O": "another character", "N": "nothing"}
+    if bad is not None:
+        tail, want = bad
+        r7.violation("table", "for a text ending (read from the end) in %s the reph is %s; the statement %s"
+                     % (" ‹ ".join(names[c] for c in tail if c != "N") or "nothing (empty text)", "appended at the end" if want else "moved in front of the final conjunct",
+                        "places it in front of the final conjunct" if want else "appends it at the end"), common.fn_line(prog, reph_fn))
+    elif undec is not None:
+        r7.undecidable("table", "the mobility test cannot be tabulated over character classes (ending %s: %s)" % (undec[0], undec[1]), common.fn_line(prog, reph_fn))
+    else:
+        r7.ok("table", "%d well-formed endings over {consonant, independent vowel, vowel sign, chandrabindu, other, none}³ agree with the statement (%d paths)"
+              % (n_rows, len(paths)))
+    r7.floor(1, "the table")
